@@ -21,6 +21,6 @@ CONSTANTS
   StalePct = 0
   ExInj <- InjX
   ScmpPct = 0
-  ExScmp <- ScmpX2
+  ExScmp <- ScmpX
 INVARIANTS Emit
 PROPERTIES StepOfSpec
